@@ -19,12 +19,15 @@ A Go predicate that is `nil` ("no constraint") is `none`; a predicate evaluates 
 namespace ObiVerif.Grep
 
 /-- attribute values that occur: string, int, bool, float64 (opaque: what `fmt.Sprint` prints and
-what `int(f)` gives) -/
+what `int(f)` gives), statistics maps (opaque) -/
 inductive AVal where
   | str (s : String)
   | int (n : Int)
   | bool (b : Bool)
   | flt (shown : String) (trunc : Int)
+  /-- a value of another Go type (the `map[string]int` statistics of `merged_taxid`): opaque, known by
+  its canonical text -/
+  | other (shown : String)
   deriving DecidableEq, Repr, Inhabited
 
 /-- `fmt.Sprint(v)` / `fmt.Sprintf("%v", v)` -/
@@ -33,6 +36,7 @@ def AVal.shown : AVal → String
   | .int n => toString n
   | .bool b => if b then "true" else "false"
   | .flt s _ => s
+  | .other s => s
 
 structure Rec where
   id : String
